@@ -30,7 +30,7 @@ Tags == {"Init.hs", "Init.forged", "Init.nil", "Init.free", "Write", "Write.dead
          "Read", "Read.data", "Read.partial", "Read.zero", "Read.timeout", "Read.eof", "Read.error", "Read.alert", "Read.kuresp",
          "Read.peek", "Read.sticky", "KeyUpdate", "Close", "Mutate", "Keystream", "Keystream.again", "Keystream.err", "KsLaw", "Nonce",
          "Ramp.grow", "Ramp.full", "Ramp.off", "Proc", "Enable", "Enable.again", "Init.weakforged",
-         "CloseWrite", "WriteDeadline", "Read.kublocked", "Write.blocked", "Read.halfclosed"}
+         "CloseWrite", "WriteDeadline", "Read.kublocked", "Write.blocked", "Read.halfclosed", "WritePadded", "WritePadded.long"}
 
 \* the keystream queries a side has made at its current write position (epoch, seq), oldest first:
 \* qs[i] = [n |-> requested length, ks |-> bytes returned]; forgotten when the side writes a record
@@ -64,7 +64,7 @@ HdrOK(q, rec, h) ==
   /\ h.t = OuterType(q, rec.typ)
   /\ h.v = RecVersion(q)
   /\ h.raw = h.n + 5
-  /\ LET pr == PtRange(q, h.n) IN ~IsEmpty(pr) /\ pr.lo <= rec.hi /\ rec.lo <= pr.hi
+  /\ LET pr == PtRange(q, h.n) IN ~IsEmpty(pr) /\ pr.lo <= rec.hi + rec.pad /\ rec.lo + rec.pad <= pr.hi
 WireOK(q, recs, hdrs) == Len(recs) = Len(hdrs) /\ \A i \in 1..Len(recs) : HdrOK(q, recs[i], hdrs[i])
 \* AEAD with an 8-byte explicit nonce: utls uses the sequence number (halfConn.encrypt), which is what
 \* GetOutKeystream relies on
@@ -226,6 +226,17 @@ StepKeyUpdate(s, a, ev) == StepCtl(s, a, ev, DoKeyUpdate(s, ev.x, ev.req), "KeyU
 \* whether a close_notify went out is read off the wire; the value Close returns is not specified
 StepClose(s, a, ev) == StepCtl(s, a, [ev EXCEPT !.err = ""], DoClose(s, ev.x, ev.wrote[ev.x] # <<>>), "Close")
 
+\* a padding peer: one record, data then ev.pad zero bytes (written through the verif method of the connection)
+StepWritePadded1(s, a, ev, x, r) ==
+  IF ev.off # s.wr[x].sent THEN Bad("harness-offset", s, a)
+  ELSE IF \E i \in 1..Len(ev.head) : ev.head[i] # StreamByte(a, x, ev.off + i - 1) THEN Bad("harness-pattern", s, a)
+  ELSE IF ~r.ok THEN Bad("not-enabled", s, a)
+  ELSE IF WErrClass(ev.err) # r.err THEN Bad("write-result", s, a)
+  ELSE IF ~WireOK(s.q, r.wrote[x], ev.wrote[x]) \/ ev.wrote[Peer(x)] # <<>> THEN Bad("record-header", s, a)
+  ELSE IF ~StateOK(r.s, ev.st) THEN Bad("counters", s, a)
+  ELSE Out("", r.s, ClearKs(a, ev), {"WritePadded"} \cup (IF ev.pad >= 256 THEN {"WritePadded.long"} ELSE {}), FALSE)
+StepWritePadded(s, a, ev) == StepWritePadded1(s, a, ev, ev.x, DoWritePadded(s, ev.x, ev.n, ev.pad))
+
 \* CloseWrite: whether a close_notify went out is read off the wire, the returned value is not specified
 StepCloseWrite(s, a, ev) == StepCtl(s, a, [ev EXCEPT !.err = ""], DoCloseWrite(s, ev.x, ev.wrote[ev.x] # <<>>), "CloseWrite")
 StepWriteDeadline(s, a, ev) == StepCtl(s, a, ev, DoWriteDeadlinePast(s, ev.x), "WriteDeadline")
@@ -282,6 +293,7 @@ Step(s, a, ev) ==
     [] ev.ev = "KeyUpdate" -> StepKeyUpdate(s, a, ev)
     [] ev.ev = "Close" -> StepClose(s, a, ev)
     [] ev.ev = "CloseWrite" -> StepCloseWrite(s, a, ev)
+    [] ev.ev = "WritePadded" -> StepWritePadded(s, a, ev)
     [] ev.ev = "WriteDeadline" -> StepWriteDeadline(s, a, ev)
     [] ev.ev = "Mutate" -> StepMutate(s, a, ev)
     [] ev.ev = "Keystream" -> StepKeystream(s, a, ev)
